@@ -425,6 +425,7 @@ type lifeFacts struct {
 	sid        string
 	node       int
 	nodeDiedAt int64
+	restart    string // "", "unnoticed", "noticed": the hosting node's process came back (same id, same data directory)
 }
 
 func (w *world) lifeFactsOf(cl *simClient) lifeFacts {
@@ -433,8 +434,14 @@ func (w *world) lifeFactsOf(cl *simClient) lifeFacts {
 		if w.stepAt[si] == 0 && si > 0 {
 			continue // never executed (shrunk away or beyond the end)
 		}
-		if s.K == "stopnode" && s.N == cl.node && f.cause == "" && w.stepAt[si] >= cl.connectAt {
+		if (s.K == "stopnode" || s.K == "restartnode") && s.N == cl.node && f.cause == "" && w.stepAt[si] >= cl.connectAt {
 			f.cause, f.causeAt, f.causeStep = "stopnode", w.stepAt[si], si
+			if s.K == "restartnode" {
+				f.restart = "noticed"
+				if w.restartQuiet[s.N] {
+					f.restart = "unnoticed" // it was back before every peer had been told that it left
+				}
+			}
 			continue
 		}
 		if s.C != cl.idx || epochAtStep(w, cl.idx, si) != cl.epoch {
@@ -555,6 +562,10 @@ func judgeLifecycleOpts(prop string, withDisplaced bool) func(w *world) {
 					displaced = true
 				}
 			}
+			bySid := w.c.Profile == "restart" && cl.sid != ""
+			if displaced && f.restart != "" {
+				displaced = false // ended with its node's process, before the same client id came back
+			}
 			if displaced && prop == "C11" {
 				continue // C12's subject
 			}
@@ -584,11 +595,22 @@ func judgeLifecycleOpts(prop string, withDisplaced bool) func(w *world) {
 				if f.cause == "stopnode" {
 					m["late_gossip"] = fmt.Sprint(w.anyLateGossip(cl.node))
 				}
+				if f.restart != "" {
+					m["host_restarted"] = f.restart
+				}
 				return m
 			}
 			listed := map[int]int{}
 			for ni, l := range final.Listings {
 				listed[ni] = len(sessionLines(l, cl.opts.ClientID))
+				if bySid {
+					listed[ni] = 0
+					for _, x := range l {
+						if strings.HasPrefix(x, "S|"+cl.sid+"|") {
+							listed[ni]++
+						}
+					}
+				}
 			}
 			if f.cause == "" {
 				// (a) no spurious end
@@ -742,7 +764,16 @@ func judgeQuiescence(w *world, prop string, final settleRec, exempt map[string]b
 						late = true
 					}
 				}
-				w.o.violate(prop, "orphan-subscription", len(w.c.Steps), endMs, map[string]string{"late_gossip": fmt.Sprint(late)}, "node %d lists subscription %s whose session is not listed", ni, x)
+				m := map[string]string{"late_gossip": fmt.Sprint(late)}
+				for _, n := range w.nodes {
+					if _, back := w.restartAt[n.idx]; back && fmt.Sprint(n.id) == f[3] {
+						m["host_restarted"] = "noticed"
+						if w.restartQuiet[n.idx] {
+							m["host_restarted"] = "unnoticed"
+						}
+					}
+				}
+				w.o.violate(prop, "orphan-subscription", len(w.c.Steps), endMs, m, "node %d lists subscription %s whose session is not listed", ni, x)
 				break
 			}
 			if peer != f[3] {
@@ -755,8 +786,15 @@ func judgeQuiescence(w *world, prop string, final settleRec, exempt map[string]b
 					host = n.idx
 				}
 			}
-			if host >= 0 && w.nodes[host].alive && w.nodes[host].local.Get(f[2]) == nil {
-				w.o.violate(prop, "subscription-of-unconnected-session", len(w.c.Steps), endMs, map[string]string{"late_gossip": fmt.Sprint(w.anyLateGossip(host))}, "node %d lists subscription %s but node %d has no such session in its registry", ni, x, host)
+			if reg, ok := final.Registry[host]; host >= 0 && ok && !reg[f[2]] {
+				m := map[string]string{"late_gossip": fmt.Sprint(w.anyLateGossip(host))}
+				if _, back := w.restartAt[host]; back {
+					m["host_restarted"] = "noticed"
+					if w.restartQuiet[host] {
+						m["host_restarted"] = "unnoticed"
+					}
+				}
+				w.o.violate(prop, "subscription-of-unconnected-session", len(w.c.Steps), endMs, m, "node %d lists subscription %s but node %d has no such session in its registry", ni, x, host)
 				break
 			}
 		}
@@ -805,7 +843,107 @@ func firstGap(w *world, cl *simClient) int64 {
 	return w.nowMs() - cl.connectAt
 }
 
+// ---------------------------------------------------------------------------------------
+// C11 variant "restart": the hosting node's process dies and is started again from its data
+// directory (same node id); its sessions ended with it
+
+func genC11Restart(r *Rand, tier, profile string) *Case {
+	c := &Case{Profile: "restart", Knobs: map[string]int64{}}
+	nodes := r.PickInt([]int{2, 2, 3})
+	c.Knobs["nodes"] = int64(nodes)
+	gossipKnobs(r, c)
+	var ts []tstep
+	ts = append(ts, tstep{1, Step{K: "connect", C: 0, N: 0, S: "witness", U: "u", T: "p", I: 3000}})
+	ts = append(ts, tstep{20, Step{K: "sub", C: 0, L: []string{"w/#"}, QL: []int{0}, I: 1}})
+	rn := 1 + r.Intn(nodes-1)
+	ns := r.Range(1, 3)
+	kOf := map[int]int64{}
+	onRn := map[int]bool{}
+	t := int64(30)
+	for i := 1; i <= ns; i++ {
+		k := int64(r.PickInt([]int{5, 30}))
+		node := rn
+		if r.Bool(0.3) {
+			node = r.Intn(nodes)
+		}
+		onRn[i] = node == rn
+		kOf[i] = k
+		t += int64(r.Range(20, 300))
+		st := Step{K: "connect", C: i, N: node, S: fmt.Sprintf("life%d", i), U: "u", T: "p", I: k}
+		if r.Bool(0.3) {
+			st.L = []string{"w/will", fmt.Sprintf("will%d", i)}
+		}
+		ts = append(ts, tstep{t, st})
+		if r.Bool(0.8) {
+			ts = append(ts, tstep{t + int64(r.Range(5, 200)), Step{K: "sub", C: i, L: []string{fmt.Sprintf("d/%d/#", i), "d/all"}, QL: []int{r.Intn(2), 0}, I: 1}})
+		}
+	}
+	// the records have (mostly) spread when the process dies
+	t += int64(r.Range(300, 4000))
+	quiet := r.Bool(0.5)
+	down := int64(r.Range(50, 1500))
+	if !quiet {
+		down = int64(r.Range(2000, 16000))
+	}
+	soon := false
+	if !quiet && r.Bool(0.4) {
+		// fast failure detection and a process that is back right after it: clients reconnect while
+		// the survivors' grace period for the lost sessions is still running
+		c.Knobs["leave_base_ms"] = int64(r.PickInt([]int{300, 500, 800}))
+		c.Knobs["leave_spread_ms"] = 300
+		down = c.Knobs["leave_base_ms"] + 300 + int64(r.Range(20, 900))
+		soon = true
+	}
+	ts = append(ts, tstep{t, Step{K: "restartnode", N: rn, I: down, G: quiet}})
+	up := t + down
+	t = up
+	// some of the clients that lost their connection come back, to the restarted node or elsewhere,
+	// under their old client identifier or a new one
+	for i := 1; i <= ns; i++ {
+		if !onRn[i] || r.Bool(0.5) {
+			continue
+		}
+		at := up + int64(r.Range(20, 5000))
+		if soon {
+			at = up + int64(r.Range(20, 2000))
+		}
+		node := rn
+		if r.Bool(0.3) {
+			node = r.Intn(nodes)
+		}
+		id := fmt.Sprintf("life%d", i)
+		if r.Bool(0.4) {
+			id += "b"
+		}
+		ts = append(ts, tstep{at, Step{K: "connect", C: i, N: node, S: id, U: "u", T: "p", I: kOf[i]}})
+		if r.Bool(0.7) {
+			ts = append(ts, tstep{at + int64(r.Range(5, 200)), Step{K: "sub", C: i, L: []string{fmt.Sprintf("d/%d/#", i), "d/all"}, QL: []int{0, 0}, I: 1}})
+		}
+		if at > t {
+			t = at
+		}
+	}
+	t += 16000 // the slowest leave notification, wasp's own 3 s grace period, and some more
+	ts = append(ts, tstep{t, Step{K: "settle"}})
+	pt := t + settleDur + 50
+	for i := 1; i <= ns; i++ {
+		ts = append(ts, tstep{pt, Step{K: "pub", C: 0, T: fmt.Sprintf("d/%d/x", i), S: fmt.Sprintf("late%d", i), Q: 0}})
+		pt += 20
+	}
+	ts = append(ts, tstep{pt, Step{K: "pub", C: 0, T: "d/all", S: "lateall", Q: 0}})
+	ts = append(ts, tstep{pt + 2500, Step{K: "settle"}})
+	return finishLife(c, ts, kOf)
+}
+
+func runC11Restart(t *testing.T, c *Case) *Outcome {
+	return runE1(t, c, profileHooks{judge: judgeLifecycle("C11")})
+}
+
 func init() {
+	register(&Check{ID: "C11", Variant: "restart", Level: "exploration", Build: "maporder", Gen: genC11Restart, Run: runC11Restart, QuickS: 15, ThoroughS: 240,
+		Rule: "variant for the cause 'failure of the hosting node' when the node comes back: 2-3 nodes, 1-3 sessions (some subscribed, some with wills) mostly on the node whose process dies and is started again from its data directory (same node id; message log and consumer offset survive, sessions and replicated state do not) 50 ms - 16 s later, either before any peer's failure detector noticed or after some or all of them were notified; it rejoins with a full-state exchange; some clients reconnect there or elsewhere under the old or a new client identifier; gossip faults until the settle; same judges as the main check (sessions that ended with the process leave no record or subscription anywhere, survivors and newcomers are left alone, quiescence invariant)",
+		Real: e1Real, Stub: e1Stub,
+		Assume: []string{"a process restart keeps the node id (cmd/wasp loadID reads it from the data directory)", "a leave notification that is due after the process is back is not delivered (memberlist refutes the suspicion)"}})
 	register(&Check{ID: "C11", Variant: "displace", Level: "exploration", Build: "maporder", Gen: genC11Displace, Run: runC11Displace, QuickS: 15, ThoroughS: 240,
 		Rule: "variant for the cause 'displaced by a newer session': chains of 2-3 connections sharing a client identifier over 1-3 nodes with gossip faults, the older ones subscribed; after an anti-entropy round every displaced session has a keep-alive exchange, then a second settle; a displaced session that has ended (closed by the broker, DISCONNECT or link loss) leaves no record or subscription anywhere and is written nothing more; quiescence invariant over the final listings",
 		Real: e1Real, Stub: e1Stub,
